@@ -207,3 +207,15 @@ pub fn ref_int_f64_cmp(i: i128, f: f64) -> core::cmp::Ordering {
         mag
     }
 }
+
+/// Model of the two private `read_u32` helpers (functions.rs, iterator.rs): big-endian u32 at `idx`,
+/// `Err(InvalidEOF)` when fewer than 4 bytes remain. Used as a stub in the byte-walker harnesses
+/// because the original goes through `Option<&[u8]>` (a pointer merged with an invalid alternative),
+/// which defeats CBMC's constant propagation of header words. The model is proved equivalent to the
+/// real functions for every buffer of <= 24 bytes and every index in c00::c00_read_u32_model_*.
+pub fn read_u32_model(buf: &[u8], idx: usize) -> Result<u32, Error> {
+    if idx > buf.len() || buf.len() - idx < 4 {
+        return Err(Error::InvalidEOF);
+    }
+    Ok(u32::from_be_bytes([buf[idx], buf[idx + 1], buf[idx + 2], buf[idx + 3]]))
+}
